@@ -11,7 +11,9 @@ package c10
 import (
 	"encoding/json"
 	"fmt"
+	"os"
 	"sort"
+	"strconv"
 	"strings"
 	"sync"
 	"time"
@@ -21,7 +23,7 @@ import (
 )
 
 func init() {
-	reg.Register(&reg.Prop{ID: "C10", Level: "exploration", Main: Main, Child: Child})
+	reg.Register(&reg.Prop{ID: "C10", Level: "exploration", Main: Main, Child: Child, Replay: Replay})
 }
 
 type childCfg struct {
@@ -37,15 +39,61 @@ type caseRef struct {
 	Ordinal  int     `json:"ordinal"`
 	Form     string  `json:"form,omitempty"`
 	Variant  variant `json:"variant"`
-	String   string  `json:"string_quoted"` // Go-quoted
+	String   string  `json:"string_quoted"` // Go-quoted (clipped if longer than 200 bytes)
 	Len      int     `json:"len"`
+}
+
+// Replay re-evaluates the (position, form, variant, string) of a stored violation in this
+// process (the reader runs in-process; a replayed case that kills the process shows that too).
+func Replay(c *run.Ctx, path string) {
+	b, err := os.ReadFile(path)
+	if err != nil {
+		c.Undecided("cannot read replay file: " + err.Error())
+		return
+	}
+	var doc struct {
+		Case struct {
+			Case caseRef `json:"case"`
+		} `json:"case"`
+	}
+	if err := json.Unmarshal(b, &doc); err != nil {
+		c.Undecided("cannot parse replay file: " + err.Error())
+		return
+	}
+	ref := doc.Case.Case
+	s, err := strconv.Unquote(ref.String)
+	if err != nil || len(s) != ref.Len {
+		c.Undecided("the stored string is clipped; re-run the check with the seed stored in the file")
+		return
+	}
+	e := &env{c: c, rig: newRig(), benign: map[benignKey]*benignVal{}, minis: map[string]int{}, known: map[string][]knownSig{}}
+	for _, p := range positions() {
+		if p.name != ref.Position {
+			continue
+		}
+		for fi, f := range p.forms {
+			if f.name != ref.Form {
+				continue
+			}
+			// make pair() start with the stored form
+			k := 0
+			for (k+len(p.name))%len(p.forms) != fi {
+				k++
+			}
+			e.pair(p, s, k, ref.Variant, ref)
+			c.Case(p.name + "|replay")
+			return
+		}
+	}
+	c.Undecided("position or form of the stored case not found")
 }
 
 func stringsPerPosition(c *run.Ctx, nPos int) int {
 	total := c.Pick(3000, 200000)
 	k := (total + nPos - 1) / nPos
-	if k < len(coreStrings) {
-		k = len(coreStrings)
+	// every position sees the whole core list plus seed-chosen strings
+	if k < nCore+12 {
+		k = nCore + 12
 	}
 	return k
 }
@@ -110,6 +158,17 @@ func Main(c *run.Ctx) {
 			c.Floor("reached-sql-with-backslash:"+p.name, 1, 0)
 		}
 	}
+	var restricted, silent []string
+	for _, p := range ps {
+		if p.restricted {
+			restricted = append(restricted, p.name)
+		}
+		if p.silent {
+			silent = append(silent, p.name)
+		}
+	}
+	c.Extra("positions_restricted_by_the_front_end", restricted)
+	c.Extra("positions_not_expected_to_reach_sql", silent)
 	c.Extra("positions", len(ps))
 	c.Extra("strings_per_position", k)
 }
@@ -164,7 +223,8 @@ var nCore = func() int {
 }()
 
 // stringFor returns the hostile string with ordinal k at position p (determined by the seed).
-func stringFor(c *run.Ctx, pname string, k int) string {
+func stringFor(c *run.Ctx, p *position, k int) string {
+	pname := p.name
 	if k < nCore {
 		return fixedCorpus[k]
 	}
@@ -172,6 +232,10 @@ func stringFor(c *run.Ctx, pname string, k int) string {
 		return fixedCorpus[k]
 	}
 	r := c.Rng(fmt.Sprintf("c10/str/%s/%d", pname, k))
+	if p.restricted && r.Intn(3) == 0 {
+		// identifier slots and hex ids: strings their lexers accept
+		return genIdent(r)
+	}
 	if c.Quick() && r.Intn(3) != 0 {
 		return fixedCorpus[nCore+r.Intn(len(fixedCorpus)-nCore)]
 	}
@@ -204,6 +268,7 @@ type env struct {
 	rig    *rig
 	benign map[benignKey]*benignVal
 	minis  map[string]int
+	known  map[string][]knownSig
 }
 
 func Child(c *run.Ctx, name string) {
@@ -213,13 +278,13 @@ func Child(c *run.Ctx, name string) {
 	}
 	ps := positions()
 	mine := lanePositions(len(ps), cfg.Lane, cfg.Lanes)
-	e := &env{c: c, rig: newRig(), benign: map[benignKey]*benignVal{}, minis: map[string]int{}}
+	e := &env{c: c, rig: newRig(), benign: map[benignKey]*benignVal{}, minis: map[string]int{}, known: map[string][]knownSig{}}
 	n := len(mine) * cfg.K
 	for j := cfg.Start; j < n; j++ {
 		k := j / len(mine)
 		pi := mine[j%len(mine)]
 		p := ps[pi]
-		s := stringFor(c, p.name, k)
+		s := stringFor(c, p, k)
 		v := variantFor(c, pi, k)
 		ref := caseRef{Position: p.name, Ordinal: k, Variant: v, String: fmt.Sprintf("%q", clipq(s)), Len: len(s)}
 		c.BeginCase(j, ref)
@@ -228,7 +293,7 @@ func Child(c *run.Ctx, name string) {
 	}
 }
 
-func (e *env) benignFor(p *position, f form, class string, v variant, fresh bool) (*benignVal, string) {
+func (e *env) benignFor(p *position, f form, class string, free bool, v variant, fresh bool) (*benignVal, string) {
 	key := benignKey{p.name, f.name, class, v}
 	if !fresh {
 		if b, ok := e.benign[key]; ok {
@@ -254,7 +319,7 @@ func (e *env) benignFor(p *position, f form, class string, v variant, fresh bool
 		return nil, "the harmless string cannot be written in form " + f.name
 	}
 	exp := p.expect(beff)
-	if exp.class != class {
+	if !free && exp.class != class {
 		return nil, fmt.Sprintf("harmless string %q has class %s, wanted %s", bs, exp.class, class)
 	}
 	out := e.rig.do(p.build(text), v)
@@ -293,7 +358,7 @@ func (e *env) attempt(p *position, f form, s string, v variant) (*attempt, bool)
 }
 
 func (e *env) judge(p *position, a *attempt, v variant, fresh bool) (verdict, string) {
-	b, why := e.benignFor(p, a.form, a.exp.class, v, fresh)
+	b, why := e.benignFor(p, a.form, a.exp.class, a.exp.free, v, fresh)
 	if b == nil {
 		return verdict{}, why
 	}
@@ -386,17 +451,39 @@ func (e *env) pair(p *position, s string, k int, v variant, ref caseRef) {
 	e.report(p, last, s, v, ver, ref)
 }
 
-// report minimises the witness and records the violation.
+// report minimises the witness and records the violation. The signature is
+// <position>/<rule>/<features of the minimised witness>; a later witness at the same position
+// and rule whose string has all the features of an already minimised one is attributed to that
+// signature without minimising again (so one escaping mistake hit by thousands of generated
+// strings stays one signature, while a mistake that needs other bytes gets its own).
 func (e *env) report(p *position, a *attempt, s string, v variant, ver verdict, ref caseRef) {
 	c := e.c
-	minS, minA, minVer := s, a, ver
 	pre := p.name + "/" + ver.rule
-	if e.minis[pre] < 6 {
-		e.minis[pre]++
-		minS, minA, minVer = e.minimise(p, a.form, s, v, ver)
+	have := map[string]bool{}
+	for _, f := range strings.Split(features(a.eff), "+") {
+		have[f] = true
 	}
-	sig := p.name + "/" + minVer.rule + "/" + features(minA.eff)
-	b, _ := e.benignFor(p, minA.form, minA.exp.class, v, false)
+	for _, k := range e.known[pre] {
+		all := true
+		for _, f := range k.feats {
+			if !have[f] {
+				all = false
+			}
+		}
+		if all {
+			c.Violation(k.sig, "(further witness of the same signature)", nil)
+			return
+		}
+	}
+	minS, minA, minVer := s, a, ver
+	sig := pre + "/other"
+	if len(e.known[pre]) < 12 {
+		minS, minA, minVer = e.minimise(p, a.form, s, v, ver)
+		fs := features(minA.eff)
+		sig = pre + "/" + fs
+		e.known[pre] = append(e.known[pre], knownSig{feats: strings.Split(fs, "+"), sig: sig})
+	}
+	b, _ := e.benignFor(p, minA.form, minA.exp.class, minA.exp.free, v, false)
 	stmtH, stmtB := "", ""
 	if minVer.stmt < len(minA.out.Stmts) {
 		stmtH = minA.out.Stmts[minVer.stmt]
@@ -404,16 +491,21 @@ func (e *env) report(p *position, a *attempt, s string, v variant, ver verdict, 
 	if b != nil && minVer.stmt < len(b.out.Stmts) {
 		stmtB = b.out.Stmts[minVer.stmt]
 	}
-	desc := fmt.Sprintf("position %s, user string %q written as %s (variant %s): %s", p.name, clipq(minS), clipq(minA.text), v, minVer.detail)
+	desc := fmt.Sprintf("position %s, user string %q written as %q (variant %s): %s", p.name, clipq(minS), clipq(minA.text), v, minVer.detail)
 	ref.String = fmt.Sprintf("%q", clipq(minS))
 	ref.Len = len(minS)
 	ref.Form = minA.form.name
 	req := p.build(minA.text)
 	c.Violation(sig, desc, map[string]any{
 		"case": ref, "original_string": fmt.Sprintf("%q", clipq(s)), "rule": minVer.rule, "detail": minVer.detail,
-		"request": map[string]any{"method": req.Method, "path": req.Path, "query": req.Query, "body": clipq(req.Body)},
-		"hostile_statement": clip(stmtH, 4000), "harmless_statement": clip(stmtB, 4000), "harmless_hole": b.text,
+		"request":           map[string]any{"method": req.Method, "path": req.Path, "query": req.Query, "body": clipq(req.Body)},
+		"hostile_statement": fmt.Sprintf("%q", clip(stmtH, 4000)), "harmless_statement": fmt.Sprintf("%q", clip(stmtB, 4000)),
 	})
+}
+
+type knownSig struct {
+	feats []string
+	sig   string
 }
 
 // minimise: ddmin over the bytes of s (then a pass of single-byte removal) keeping "the same
